@@ -1,0 +1,25 @@
+//go:build verif
+
+package libp2p
+
+import (
+	libp2pcrypto "github.com/libp2p/go-libp2p/core/crypto"
+	"github.com/libp2p/go-libp2p/core/peer"
+)
+
+// Thin exports for the C18 verification driver (identity.go).
+
+// VerifIdentityMarshal calls identity.Marshal on an identity made of the given
+// peer ID and public key (the key may be nil: Marshal then extracts it from
+// the ID).
+func VerifIdentityMarshal(id peer.ID, pubKey libp2pcrypto.PubKey) ([]byte, error) {
+	return (&identity{id: id, pubKey: pubKey}).Marshal()
+}
+
+// VerifIdentityUnmarshal calls identity.Unmarshal and returns the decoded
+// peer ID and public key.
+func VerifIdentityUnmarshal(bytes []byte) (peer.ID, libp2pcrypto.PubKey, error) {
+	i := &identity{}
+	err := i.Unmarshal(bytes)
+	return i.id, i.pubKey, err
+}
